@@ -120,10 +120,12 @@ type vfC13Model struct {
 	// per user and role: the sequence since which the user has been assigned the role without
 	// interruption (whatever the sources)
 	MemStart map[string]map[string]uint64
+	// per user and role: the latest sequence at which the user was assigned the role
+	MemLast map[string]map[string]uint64
 }
 
 func vfC13NewModel() *vfC13Model {
-	return &vfC13Model{Docs: map[string]*vfC13Doc{}, Users: map[string]*vfC13Princ{}, Roles: map[string]*vfC13Princ{}, Gap: map[string]map[string]uint64{}, Periods: map[string]map[string][]vfC13Span{}, MemStart: map[string]map[string]uint64{}}
+	return &vfC13Model{Docs: map[string]*vfC13Doc{}, Users: map[string]*vfC13Princ{}, Roles: map[string]*vfC13Princ{}, Gap: map[string]map[string]uint64{}, Periods: map[string]map[string][]vfC13Span{}, MemStart: map[string]map[string]uint64{}, MemLast: map[string]map[string]uint64{}}
 }
 
 func vfC13CopySpans(m map[string][]vfC13Span) map[string][]vfC13Span {
@@ -180,6 +182,7 @@ func (m *vfC13Model) Clone() *vfC13Model {
 	}
 	c.Gap = vfC13Copy2(m.Gap)
 	c.MemStart = vfC13Copy2(m.MemStart)
+	c.MemLast = vfC13Copy2(m.MemLast)
 	for u, p := range m.Periods {
 		c.Periods[u] = vfC13CopySpans(p)
 	}
@@ -590,11 +593,15 @@ func (m *vfC13Model) noteGaps() {
 		if m.MemStart[name] == nil {
 			m.MemStart[name] = map[string]uint64{}
 		}
+		if m.MemLast[name] == nil {
+			m.MemLast[name] = map[string]uint64{}
+		}
 		assigned := m.userRoles(name)
 		for r := range assigned {
 			if m.MemStart[name][r] == 0 {
 				m.MemStart[name][r] = m.Seq
 			}
+			m.MemLast[name][r] = m.Seq
 		}
 		for r := range m.MemStart[name] {
 			if _, ok := assigned[r]; !ok {
